@@ -32,7 +32,7 @@ ASSUMPTIONS = [
     "clock frozen with freezegun; host name identical (same process)",
 ]
 BUDGET = {"quick": (160, 4), "thorough": (24000, 16)}
-REQUIRED = ["sibling_histories", "ancestor_matches_pattern", "ancestor_ascmhl", "relative_invocation", "trailing_slash", "dot_invocation", "relocated_verify", "ancestor_glob_chars", "case_colliding_siblings", "create_sf"]
+REQUIRED = ["sibling_histories", "ancestor_matches_pattern", "ancestor_ascmhl", "relative_invocation", "trailing_slash", "dot_invocation", "relocated_verify", "ancestor_glob_chars", "case_colliding_siblings", "create_sf", "rename_recorded_with_dr"]
 
 CFG = {
     "kinds": ["create"] * 8 + ["create_sf"] * 2 + ["put_new", "mkdir"],
@@ -72,6 +72,12 @@ def _scn(draw):
                 scn["steps"] = [{"op": "create", "root": r, "formats": ["md5"], "flags": []} for r in draw(st.permutations(["Cards/a01", "Cards/A01"]))] + scn["steps"]
             scn["case_twins"] = True
     scn["steps"].append({"op": "create", "root": "", "formats": draw(gen.formats(2)), "flags": []})
+    if draw(st.integers(0, 2)) == 0 and "renameme.mov" not in hist.top_names_used(scn):
+        # a file with content of its own is sealed, renamed, and the rename recorded with -dr
+        fm = draw(gen.formats(2))
+        scn["steps"] += [{"op": "put_new", "path": "renameme.mov", "spec": "only this file has this content"}, {"op": "create", "root": "", "formats": fm, "flags": []},
+                         {"op": "mv", "src": "renameme.mov", "dst": "renamed.mov"}, {"op": "create", "root": "", "formats": fm, "flags": ["-dr"]}]
+        scn["rename_dr"] = True
     pat = draw(st.sampled_from([None, None, "tmp*", "*.bak", "cache", "cache/"]))
     scn["pattern"] = pat
     matching = {"tmp*": "tmpstore", "*.bak": "old.bak", "cache": "cache", "cache/": "cache"}.get(pat)
@@ -207,6 +213,8 @@ def run_case(scn, ctx):
                 feats.add("sibling_histories")
         if scn.get("case_twins"):
             feats.add("case_colliding_siblings")
+        if scn.get("rename_dr"):
+            feats.add("rename_recorded_with_dr")
         if "ascmhl" in scn["ancestors"]:
             feats.add("ancestor_ascmhl")
         if any(c in a for a in scn["ancestors"] for c in "[*?"):
